@@ -168,3 +168,15 @@ Proof.
   cbn zeta. split; [cbn; repeat split; try discriminate; reflexivity|].
   split; [exact I|]. split; [right; reflexivity|]. vm_compute. reflexivity.
 Qed.
+
+(* scope references: after the identifiers of a parsed expression have been resolved against the enclosing
+   scopes (convert_scopes), printing it with the scopes' own names (unmangled printing), parsing the text and
+   resolving again gives the same expression - for every scope list, including shadowed names *)
+From GE Require Import Proofs.ScopeRoundTrip.
+Theorem C14_resolved_expression_roundtrip : forall scopes e, wf e -> forall rest,
+  match parse_cond (sx_core (scope_names scopes) (convert_scopes scopes e) ++ 125%N :: 125%N :: rest) with
+  | POk e' r => convert_scopes scopes e' = convert_scopes scopes e /\ r = 125%N :: 125%N :: rest
+  | PFail _ => False
+  end.
+Proof. exact resolved_print_parse. Qed.
+Print Assumptions C14_resolved_expression_roundtrip.
